@@ -8,7 +8,7 @@ Require Import TL.Model.Iter TL.Model.IterEq TLRun.GenIterClasses.
 Theorem C18_class_table_ok : class_table_ok class_rows = true.
 Proof. vm_compute. reflexivity. Qed.
 
-Example C18_class_table_nonempty : Nat.leb 30 (List.length class_rows) = true.
+Example C18_class_table_nonempty : Nat.leb 70 (List.length class_rows) = true.
 Proof. vm_compute. reflexivity. Qed.
 
 Print Assumptions C18_class_table_ok.
